@@ -3,6 +3,7 @@
    flate.Reader to, on every run, and what compress/flate and zlib are
    compared with. Theorems here: the decoder's verdict and output are a
    function of the bits it consumed only. *)
+From V Require Import Window.Dict Window.DictSpec Window.DictThms.
 From V Require Import Base.DepthThms Flate.Depth XFlate.Reader XFlate.RoundTripStmt Flate.Compose.
 From V Require Import Base.Prelude Base.Prog Base.ProgThms Flate.Spec Flate.Thms Flate.Safe Flate.Fuel Flate.Canon Flate.CanonLink Base.FuelThms.
 
@@ -99,3 +100,16 @@ Theorem flate_decoding_independent_of_older_history : forall depth bits pos0 out
   shift_result pos0 out0 r.
 Proof. exact inflate_prog_history. Qed.
 Print Assumptions flate_decoding_independent_of_older_history.
+
+(* THE SLIDING WINDOW, implementation level (flate/dict_decoder.go: lazily grown buffer
+   4096 -> x4 -> size, wrap-around, the two phases of WriteCopy, TryWriteCopy; model run against
+   the real dictDecoder on scripted histories on every run): for every window size, every
+   recycled buffer (any contents, any capacity) and every history that follows the caller
+   protocol of reader.go, no panic and every observation - copy counts, flushed bytes, HistSize,
+   AvailSize - is the abstract LZ77 specification's *)
+Theorem flate_window_refines_lz77 : forall size recycled ops st0,
+  size_ok size -> dd_init size recycled = Ok st0 -> proto st0 ops ->
+  exists obs st' s', dd_run st0 ops = (map Ok obs, st') /\
+                     wsp_run (wsp_init size) ops (map Ok obs) = Some s' /\ Inv st' s'.
+Proof. exact dict_refines. Qed.
+Print Assumptions flate_window_refines_lz77.
